@@ -219,6 +219,11 @@ class Telomere:
         False if error threshold triggered senescence.
         """
         with self._lock:
+            # Auto-start if still nascent (as tick() does): a lifecycle
+            # never goes from NASCENT straight to SENESCENT
+            if self._phase == LifecyclePhase.NASCENT:
+                self._start_locked()
+
             self._error_count += 1
             self._log_event("error", {"error_count": self._error_count})
 
